@@ -7,6 +7,7 @@ import (
 	"sort"
 	"strconv"
 	"strings"
+	"time"
 
 	"github.com/elastic/go-libaudit/v2/aucoalesce"
 	"github.com/elastic/go-libaudit/v2/auparse"
@@ -1147,6 +1148,22 @@ func c09Times(c *enumx.Ctx) {
 					}
 					if identity(c, "C09", m, ev, desc) {
 						c.Nontrivial()
+					}
+					// the same record RE-STAMPED by its holder with a finer instant than a log line can spell (a message built
+					// from another source, a clock with nanoseconds): the event's instant is the first record's, digit for digit
+					for _, d := range []time.Duration{1, 999, 1000, 500 * time.Microsecond, 999999, 11234567 % 1000000} {
+						m2, err := auparse.ParseLogLine(line)
+						if err != nil {
+							return
+						}
+						m2.Timestamp = m2.Timestamp.Add(d)
+						ev2, err := aucoalesce.CoalesceMessages([]*auparse.AuditMessage{m2})
+						if err != nil || ev2 == nil {
+							continue
+						}
+						if !identity(c, "C09", m2, ev2, desc+fmt.Sprintf(" re-stamped %v later", d)) {
+							return
+						}
 					}
 				})
 			}
